@@ -130,7 +130,13 @@ func CmpUpto(a, b []byte) int {
 //
 // Since 0.1.20
 func StrCmpUpto(a string, b []byte) int {
-	return CmpUpto(*(*[]byte)(unsafe.Pointer(&a)), b)
+	// A string header has no cap field: build a full slice header before
+	// reinterpreting it, otherwise cap is whatever follows `a` in memory.
+	h := struct {
+		string
+		cap int
+	}{a, len(a)}
+	return CmpUpto(*(*[]byte)(unsafe.Pointer(&h)), b)
 }
 
 // Len returns the number of payload bits in a bitStr.
